@@ -47,6 +47,15 @@ type FakeInformer struct {
 	handlers []cache.ResourceEventHandler
 	queues   [][]notification // per handler: notifications not yet run (handler lag)
 	Synced   bool
+
+	// ReplayOnRegister makes AddEventHandler queue, for the new handler, one add notification
+	// per object that is in the cache at that moment.  This is what client-go does: a handler
+	// that joins a started shared informer is sent synthetic adds for everything in the
+	// indexer, and a handler registered before the start receives the initial list as adds —
+	// in both cases asynchronously (the handler runs them whenever its goroutine gets to it,
+	// HasSynced only speaks about the store).  The notifications run on NotifyNext /
+	// NotifyNextFor / Flush like any other.
+	ReplayOnRegister bool
 }
 
 type notification struct {
@@ -67,6 +76,17 @@ var _ cache.SharedIndexInformer = (*FakeInformer)(nil)
 func (f *FakeInformer) AddEventHandler(h cache.ResourceEventHandler) {
 	f.handlers = append(f.handlers, h)
 	f.queues = append(f.queues, nil)
+	if f.ReplayOnRegister {
+		f.ReplayExisting(len(f.handlers) - 1)
+	}
+}
+
+// ReplayExisting queues, for handler h, an add notification for every cached object (in key
+// order): the informer's notifications for the objects that exist when the handler joins.
+func (f *FakeInformer) ReplayExisting(h int) {
+	for _, o := range f.indexer.List() {
+		f.queues[h] = append(f.queues[h], notification{"add", nil, o})
+	}
 }
 func (f *FakeInformer) AddEventHandlerWithResyncPeriod(h cache.ResourceEventHandler, _ time.Duration) {
 	f.AddEventHandler(h)
@@ -209,6 +229,43 @@ func (f *FakeInformer) NotifyNext(h int) bool {
 		f.handlers[h].OnDelete(n.obj)
 	}
 	return true
+}
+
+// PendingKeysFor lists the object keys of handler h's queued notifications, oldest first.
+func (f *FakeInformer) PendingKeysFor(h int) []string {
+	if h >= len(f.queues) {
+		return nil
+	}
+	var out []string
+	for _, n := range f.queues[h] {
+		out = append(out, accessorName(n.obj))
+	}
+	return out
+}
+
+// NotifyNextFor runs the oldest queued notification of handler h that concerns the object
+// namespace/name `key`, leaving the notifications of other objects queued (per-object FIFO: a
+// superset of client-go's per-handler FIFO, DESIGN.md 4.3).
+func (f *FakeInformer) NotifyNextFor(h int, key string) bool {
+	if h >= len(f.queues) {
+		return false
+	}
+	for i, n := range f.queues[h] {
+		if accessorName(n.obj) != key {
+			continue
+		}
+		f.queues[h] = append(append([]notification(nil), f.queues[h][:i]...), f.queues[h][i+1:]...)
+		switch n.kind {
+		case "add":
+			f.handlers[h].OnAdd(n.obj)
+		case "update":
+			f.handlers[h].OnUpdate(n.old, n.obj)
+		case "delete":
+			f.handlers[h].OnDelete(n.obj)
+		}
+		return true
+	}
+	return false
 }
 
 // Flush runs all queued notifications, handler by handler in registration order per event.
